@@ -70,6 +70,7 @@ fn main() {
         "C18" => run_check::<engines::addr::AddrCheck>(opts),
         "C09" => run_check::<engines::bank::BankCheck>(opts),
         "C20" => run_check::<engines::builder::BuilderCheck>(opts),
+        "C01" | "C02" | "C03" | "C04" | "C05" | "C08" | "C10" | "C11" | "C12" | "C13" => run_check::<engines::tree::TreeCheck>(opts),
         _ => {
             eprintln!("unknown property id {}", id);
             2
